@@ -27,7 +27,7 @@ func init() {
 	core.Register(&core.Check{
 		ID:    "C01",
 		Level: "model_checking",
-		Rule: "(e) every REPL session of <=3 (thorough 4) lines over a 24-line alphabet fed to the real StartREPL; (a) every own property (Go and native, discovered at run time from every object reachable from the root environment) called through Func#call with every argument tuple (self, a1) over a 60-value pool and (self, a1, a2) over a 12-value pool (thorough: 24), plus 7 kwargs objects on a 12-value pool; " +
+		Rule: "(e) every REPL session of <=3 (thorough 4) lines over a 24-line alphabet fed to the real StartREPL; (a) every own property (Go and native, discovered at run time from every object reachable from the root environment) called through Func#call with every argument tuple (self, a1) over a 67-value pool (including values equal to a cached singleton without being it: Int.bear.new(0), true - true, ...) and (self, a1, a2) over a 13-value pool (thorough: 25), plus 7 kwargs objects on a 13-value pool; " +
 			"(b) every string of <=2 tokens over a 75-spelling token alphabet (joined with and without spaces) and of 3 tokens over 26 token classes (thorough: 3 over 75, 4 over 18), parsed and evaluated as a program, with stdin; " +
 			"(c) x OP y for 23 infix operators over pool^2, prefix operators, x[y], x[y:z], x[y:z:w] over reduced pools through real syntax; " +
 			"(d) 45 producers of unusual values (bodies with return/raise/yield/defer in function, method, iterator, chain, try, eval contexts; every prototype; `_`) x 22 consumer slots; " +
@@ -57,11 +57,13 @@ var poolSrc = []string{
 	"(1:3)", "(3:1:-1)", "(0:0:0)", "(nil:nil:nil)", "('a:'c)", "(1.5:3)",
 	"nil", "true", "false",
 	"{|x| x}", "{|| nil}", "{|| raise ValueErr.new(\"f\")}", "m{|x| x}", "<{|i| yield i if i < 2; recur(i + 1)}>.new(0)", "<{|i| yield i}>", "<>",
+	// values equal to a cached singleton (0, 1, "", nil-like) without being that object
+	"Int.bear.new(0)", "(true - true)", "Float.bear.new(0.0)", `Str.bear.new("")`, "Arr.bear.new([])", "false.bear", "nil.bear",
 	"1.try", "1.try./(0)", "1.try./(0).err", "1.bear", "Int.bear.new(1)", "[].bear", `"a".bear`, "{a: 1}.bear({b: 2})",
 	"Int", "Str", "Arr", "Obj", "BaseObj", "Map", "Func", "Iter", "Either", "Err", "ZeroDivisionErr", "FileNotFoundErr", "Kernel", "Nil", "Range", "Comparable",
 }
 
-var smallPool = []string{"0", "1", "(-1)", `"a"`, "[1, 2, 3]", "{a: 1}", "nil", "{|x| x}", "(1:3)", "1.5", "%{1: 2}", "Int"}
+var smallPool = []string{"0", "Int.bear.new(0)", "1", "(-1)", `"a"`, "[1, 2, 3]", "{a: 1}", "nil", "{|x| x}", "(1:3)", "1.5", "%{1: 2}", "Int"}
 var smallPoolThorough = append(append([]string{}, smallPool...), "9223372036854775807", `""`, "[]", "true", "Str", "BaseObj", "1.try./(0)", "<{|i| yield i}>", "(nil:nil:nil)", "FileNotFoundErr", `"日本𝄞"`, "{}")
 
 var kwPool = []string{"{}", "{private?: true}", "{end: \"!\"}", "{base: 16}", "{sep: \",\"}", "{key: {|x| x}}", "{init: 0}"}
